@@ -57,4 +57,19 @@ let () =
        [Specfail ("c14_next_hand_dealt_from_a_full_deck", Printf.sprintf "%s of %s consecutive hands share a card with the hand before (expected %.0f +- %.0f)" o.(0) i.(1) (n *. p) sd)])
     @ (if int_of_string o.(1) = int_of_float ds then [] else [Specfail ("c14_every_card_can_be_dealt", o.(1) ^ " different cards seen in the hole cards of " ^ i.(1) ^ " hands")])
     end);
+  (* 48 fresh threads each draw one card from a full deck: with independent generators about 31 different cards are
+     seen (fewer than 12 has probability below 1e-12) *)
+  register "threadfirst" (fun i o ->
+    if int_of_string o.(0) >= 12 then [] else
+      [Specfail ("c14_threads_draw_independently", Printf.sprintf "the first cards drawn by %s fresh threads take only %s different values" i.(1) o.(0))]);
+  (* a random observation: its highest card is private with probability 2/(2+b), b board cards; 6.5 sigma *)
+  register "randobs" (fun i o ->
+    if o.(0) = "P" then [Specfail ("c14_random_observation_aborts", i.(1))] else begin
+    let b = float_of_int (match int_of_string i.(1) with 1 -> 3 | 2 -> 4 | _ -> 5) in
+    let n = float_of_string i.(2) and k = float_of_string o.(0) in
+    let p = 2.0 /. (2.0 +. b) in
+    let sd = sqrt (n *. p *. (1.0 -. p)) in
+    if Float.abs (k -. n *. p) <= 6.5 *. sd then [] else
+      [Specfail ("c14_random_observation_deals_uniformly", Printf.sprintf "street %s: the highest card of the observation is private in %s of %s samples (expected %.0f +- %.0f)" i.(1) o.(0) i.(2) (n *. p) sd)]
+    end);
   register "dealtsummary" (fun _ o -> if o.(0) = "0" then [] else [Specfail ("c14_dealt_cards_overlap", o.(0) ^ " hands")])
